@@ -107,7 +107,8 @@ def tensor_with_identities(cx, N, name="R"):
     return R
 
 
-def build_aggregate(cx, nmol=2, mult=1, with_bath=True, coupling=0.01, energies=None, Nt=8):
+def build_aggregate(cx, nmol=2, mult=1, with_bath=True, coupling=0.01, energies=None, Nt=8, reorgs=None,
+                    order=None):
     """concrete Aggregate of two-level molecules (built with the real numpy)"""
     import quantarhei as qr
     with cx.concrete():
@@ -123,8 +124,16 @@ def build_aggregate(cx, nmol=2, mult=1, with_bath=True, coupling=0.01, energies=
             m.position = [10.0 * i, 0.0, 0.0]
             m.set_dipole(0, 1, [1.0, 0.3 * i, 0.0])
             if with_bath:
-                m.set_transition_environment((0, 1), fc)
+                if reorgs is not None:
+                    with qr.energy_units("1/cm"):
+                        fci = qr.CorrelationFunction(time, dict(ftype="OverdampedBrownian", reorg=reorgs[i],
+                                                                cortime=100 - 20 * i, T=300))
+                    m.set_transition_environment((0, 1), fci)
+                else:
+                    m.set_transition_environment((0, 1), fc)
             mols.append(m)
+        if order is not None:
+            mols = [mols[i] for i in order]
         agg = qr.Aggregate(name="A", molecules=mols)
         for i in range(nmol):
             for j in range(i + 1, nmol):
